@@ -1,10 +1,61 @@
 import NmlVerif.Model.Introspect
 import NmlVerif.Gen.Bindings
 import NmlVerif.Gen.Xsd
+import NmlVerif.Gen.Introspect
 import NmlVerif.DrvCommon
 open Lean NmlVerif.Binding NmlVerif.Introspect Drv
 
 def T := NmlVerif.Gen.Bindings.table
+def P := NmlVerif.Gen.Introspect.progs
+
+def fmtOf (s : String) : Fmt := if s == "list" then .list else if s == "dict" then .dict else .string
+
+def idOf (j : Json) (k : String) : IdVal :=
+  match j.getObjVal? k with
+  | .ok (.str s) => .str s
+  | .ok (.num n) => .int n.mantissa
+  | _ => .none
+
+def compOf (c : Json) : Comp := { hasId := getBool c "h", id := idOf c "i", tag := getNat c "t" }
+
+def valOf (v : Json) : Nat × MVal :=
+  let n := getNat v "n"
+  match getStr v "k" with
+  | "chars" => (n, .chars (getNat v "c"))
+  | "comps" => (n, .comps ((getArr v "l").toList.map compOf))
+  | "scalar" => (n, .scalar)
+  | _ => (n, .none)
+
+def opOf (j : Json) : Op :=
+  match getStr j "k" with
+  | "members" => .members (getNat j "cls")
+  | "info" => .info (getNat j "cls") (getBool j "sc") (fmtOf (getStr j "fmt"))
+  | "pinfo" => .parentinfo (getNat j "cls") (fmtOf (getStr j "fmt"))
+  | "check" => .checkArg (getNat j "cls") (natList (getObj j "kws"))
+  | _ => .getById (getBool j "doc") (getNat j "cls") ((getArr j "vals").toList.map valOf) (getNat j "wc") (idOf j "id")
+
+def triple (x : Nat × Bool × Nat) : Json := Json.arr #[x.1, x.2.1, x.2.2]
+
+def ansJson : Ans → Json
+  | .members none => Json.null
+  | .members (some l) => Json.arr (l.map fun s => Json.arr #[s.name, s.dtype, s.container, s.optional]).toArray
+  | .info none => Json.null
+  | .info (some (.names l)) => Json.mkObj [("names", Json.arr (l.map fun (n : Nat) => Json.num n).toArray)]
+  | .info (some (.dict l)) => Json.mkObj [("dict", Json.arr (l.map triple).toArray)]
+  | .info (some (.lines l)) => Json.mkObj [("lines", Json.arr (l.map fun x => Json.arr #[x.1, x.2.1, x.2.2]).toArray)]
+  | .pinfo none => Json.null
+  | .pinfo (some (.parents l)) => Json.mkObj [("parents", Json.arr (l.map fun (n : Nat) => Json.num n).toArray)]
+  | .pinfo (some (.dict l)) => Json.mkObj [("dict", Json.arr (l.map fun x => Json.arr #[x.1, Json.arr (x.2.map triple).toArray]).toArray)]
+  | .pinfo (some (.lines l)) => Json.mkObj [("lines", Json.arr (l.map fun x => Json.arr #[x.1, Json.arr (x.2.map triple).toArray]).toArray)]
+  | .check none => Json.null
+  | .check (some b) => Json.bool b
+  | .got r wc =>
+    Json.mkObj [("r", match r with
+                      | .ret none => Json.null
+                      | .ret (some c) => Json.num c.tag
+                      | .typeError => Json.str "TypeError"
+                      | .attrError => Json.str "AttributeError"),
+                ("wc", Json.num wc)]
 
 def handle (j : Json) : Json :=
   match getStr j "op" with
@@ -15,14 +66,12 @@ def handle (j : Json) : Json :=
   | "ctor" =>
     Json.arr ((ctorKeywords T [] (getNat j "cls")).map fun (n : Nat) => Json.num n).toArray
   | "checkarg" => Json.bool (checkArg T (getNat j "cls") (getNat j "kw"))
-  | "getbyid" =>
-    let lists := (getArr j "lists").toList.map fun l =>
-      match l with
-      | .arr xs => xs.toList.map fun c => ({ hasId := getBool c "h", id := getStr c "i", tag := getNat c "t" } : Comp)
-      | _ => []
-    match getById (getBool j "doc") lists (getStr j "id") with
-    | some c => Json.num c.tag
-    | none => Json.null
+  | "hist" =>
+    -- a call history on the freshly imported module, run through the TRANSLATED bodies
+    let ops := (getArr j "ops").toList.map opOf
+    let (as, S) := run T P (initState T) ops
+    Json.mkObj [("ans", Json.arr (as.map ansJson).toArray),
+                ("tables_unchanged", Json.bool (decide (S.tables = (initState T).tables)))]
   | _ => Json.mkObj [("err", "op")]
 
 def main : IO Unit := loop handle
